@@ -55,3 +55,14 @@ Definition open_meta (f : bytes) : outcome meta :=
       Done (mk_meta FormatV2 (le_decode (fst r1)) codec (le_decode (fst r3)) (le_decode (fst r4)))
     else Fail EInvalidCodec
   else Fail EInvalidVersion.
+
+(* ---- the declarative acceptance condition of C13, with the literals of the property text:
+   the string ends with the magic of a known version, preceded by the complete metadata
+   record of that version (18 bytes for V2, 17 for V1) whose 9th byte is a known codec id ---- *)
+Definition byte_at_N (f : bytes) (i : N) : N := match nthN i f with Some b => b | None => 0 end.
+Definition valid_trailer_suffixb (f : bytes) : bool :=
+  let n := len f in
+  (4 <=? n) &&
+  (let magic := le_decode (skipnN (n - 4) f) in
+   ((magic =? 1730401476) && (22 <=? n) && (byte_at_N f (n - 22 + 8) <=? 5))
+   || ((magic =? 1983008076) && (21 <=? n) && (byte_at_N f (n - 21 + 8) <=? 5))).
